@@ -2,6 +2,7 @@ package main
 
 import (
 	"sort"
+	"strconv"
 
 	"github.com/esimov/gogu"
 )
@@ -325,6 +326,30 @@ func (r *c13Runner) Do(op []string) string {
 			return "err"
 		}
 		return "ok " + ints(res)
+	case "rangeu", "rangerightu": // the uint64 instantiation (values above 2^63 included)
+		var args []uint64
+		for _, t := range parseList(op[1]) {
+			u, err := strconv.ParseUint(t, 10, 64)
+			if err != nil {
+				panic("harness: bad unsigned argument " + t)
+			}
+			args = append(args, u)
+		}
+		var res []uint64
+		var err error
+		if op[0] == "rangeu" {
+			res, err = gogu.Range(args...)
+		} else {
+			res, err = gogu.RangeRight(args...)
+		}
+		if err != nil {
+			return "err"
+		}
+		items := make([]string, len(res))
+		for i, u := range res {
+			items[i] = strconv.FormatUint(u, 10)
+		}
+		return "ok " + plist(items)
 	}
 	panic("harness: bad op " + op[0])
 }
@@ -402,6 +427,16 @@ func genC13(g *Gen) {
 				ops = append(ops, "range "+ints([]int{base, st, base + 7}), "rangeright "+ints([]int{base, st, base + 7}),
 					"range "+ints([]int{-base, st, -base - 7}), "range "+ints([]int{base, base + 3}))
 			}
+		}
+		g.Emit("c13", nil, ops)
+	}
+	// Range / RangeRight on uint64, also above 2^63 (ascending, no wrap-around)
+	if g.Mine() {
+		var ops []string
+		for _, a := range []string{"[3,9]", "[7]", "[0,2,9]", "[9223372036854775805,9223372036854775811]",
+			"[9223372036854775808,3,9223372036854775820]", "[18446744073709550000,18446744073709550006]",
+			"[18446744073709550000,4,18446744073709550013]", "[9223372036854775807,9223372036854775809]", "[5,5]", "[9,3]"} {
+			ops = append(ops, "rangeu "+a, "rangerightu "+a)
 		}
 		g.Emit("c13", nil, ops)
 	}
